@@ -7,6 +7,7 @@ package stream
 import (
 	"encoding/xml"
 
+	"mellium.im/xmpp/internal/ns"
 	"mellium.im/xmpp/jid"
 )
 
@@ -43,7 +44,10 @@ func (i *Info) FromStartElement(s xml.StartElement) error {
 			if err != nil {
 				return BadFormat
 			}
-		case xml.Name{Space: "xml", Local: "lang"}:
+		case xml.Name{Space: ns.XML, Local: "lang"}, xml.Name{Space: "xml", Local: "lang"}:
+			// The decoder in encoding/xml reports the xml: prefix as the XML
+			// namespace, but tokens that did not originate from it may still use
+			// the bare prefix.
 			i.Lang = attr.Value
 		}
 	}
